@@ -194,6 +194,12 @@ Proof.
   - split; [intros _|tauto]. rewrite transpose_ok by assumption. cbn. eauto.
 Qed.
 
+Lemma mat_step_spec_wf m o : mat_wf m -> mat_op_sizes o ->
+  (mat_op_meaningful m o -> exists m', mat_step m o = Ok m' /\ mat_wf m') /\ (~ mat_op_meaningful m o -> mat_step m o = Exit).
+Proof.
+  intros Hw Hs. destruct (mat_step_spec m o Hw Hs) as [H1 H2]. split; [|exact H2].
+  intros H. destruct (H1 H) as [m' E]. exists m'. split; [exact E|]. eapply mat_step_wf; eassumption.
+Qed.
 Lemma mat_history_wf ops : forall m m', mat_wf m -> Forall mat_op_sizes ops -> mat_history m ops = Ok m' -> mat_wf m'.
 Proof.
   induction ops as [|o r IH]; intros m m' Hw Hs H; cbn in H; [inversion H; subst; assumption|].
